@@ -75,6 +75,7 @@ func (e *Sim) Cases(tier string, _ int64) int {
 	}
 	return e.NQuick
 }
+
 // Floors: the engine's own antecedent floors plus two that every simulated history must reach
 // whatever the property (a run in which the replica-set controller never manages to write its
 // status or to create pods has judged next to nothing: inconclusive, not "held").
